@@ -547,6 +547,14 @@ def judgeLine (j : J) (op : String) (outs : List String) : J × List String :=
     | some _, none => ({ j with stopped := true }, [vio j "db:cache-full-statement-left-table-unreadable" s!"got=[{(" | ".intercalate outs).take 200}]"])
     | none, _ => ({ j with stopped := true }, [])
   | ["roots"] => judgeRoots j outs
+  -- the number of pages the real cache holds against its capacity (C15: never more)
+  | ["cachestat"] =>
+    let nums : List (String × Nat) := (outs.flatMap words).filterMap fun w =>
+      match w.splitOn "=" with | [k, v] => v.toNat?.map (k, ·) | _ => none
+    match nums.find? (·.1 == "n"), nums.find? (·.1 == "cap") with
+    | some (_, n), some (_, c) =>
+      if c > 0 && n > c then (j, [vio j "db:cache-over-capacity" s!"entries={n} capacity={c}"]) else (j, [])
+    | _, _ => (j, [])
   | ["capcheck", cap] =>
     match outs.find? (·.startsWith "differs") with
     | some d => (j, [vio j "db:cache-size-dependent" s!"capacity={cap} {(d.take 500).toString}"])
